@@ -356,7 +356,13 @@ func decide(o *oblig, file string, opt dischargeOpts) {
 		}
 		return
 	}
-	first := runSolver(ctx, solvers[0], file, opt.quickSecs)
+	// stage 1: z3-new alone, briefly (nearly every obligation is decided here in well under a second);
+	// stage 2: all three solvers race with the full timeout (z3-new included again)
+	probe := opt.quickSecs
+	if probe > 3 && !o.baseline {
+		probe = 3
+	}
+	first := runSolver(ctx, solvers[0], file, probe)
 	o.secs = first.secs
 	if o.baseline && first.result != "unsat" && first.result != "error" {
 		o.result, o.solver, o.model = first.result, first.solver, first.model
@@ -380,7 +386,7 @@ func decide(o *oblig, file string, opt dischargeOpts) {
 	defer cancel()
 	n := 0
 	for i, sp := range solvers {
-		if i == 0 && (first.result == "unsat" || first.result == "sat" || first.result == "error" || opt.fullSecs <= opt.quickSecs) {
+		if i == 0 && (first.result == "unsat" || first.result == "sat" || first.result == "error" || opt.fullSecs <= probe) {
 			continue
 		}
 		n++
